@@ -36,7 +36,7 @@ type c11Env struct {
 func c11NewEnv(t *testing.T) *c11Env {
 	db, ctx := SetupTestDBWithOptions(t, DatabaseContextOptions{AllowConflicts: base.Ptr(true), BcryptCost: 4})
 	col, ctx := GetSingleDatabaseCollectionWithUser(ctx, t, db)
-	_, err := col.UpdateSyncFun(ctx, `function(doc){ if (doc.reject) { throw({forbidden: "rejected"}); } channel(doc.channels); if (doc.grant) { access(doc.grant, "granted"); } }`)
+	_, err := col.UpdateSyncFun(ctx, c11SyncFn)
 	if err != nil {
 		t.Fatalf("sync fn: %v", err)
 	}
@@ -111,6 +111,10 @@ type c11Req struct {
 	// ---- CAS retry inside the request ----
 	hook  func(e *c11Env, id string) func(key string, n int, cbErr error) error
 	noCas bool
+	// ---- the commit copies an out-of-line revision body into the document (promotion of a non-winning revision) ----
+	// the reads of _sync:rb: documents in the attempt that commits are class ReadBody (their failure is swallowed and
+	// loses the body: finding swallowed-failure:promoted-revision-body-unreadable)
+	bodyReads bool
 }
 
 func (rq *c11Req) nsubs() int {
@@ -154,6 +158,10 @@ func c11Class(op, key string, afterDocCommit bool) string {
 		return "Read" // loading a principal refreshes its computed channels in place (idempotent read-repair)
 	case op == "WriteUpdateWithXattrs":
 		return "Aux" // entering the write: a failure aborts the request before anything happened
+	case op == "Delete" && (strings.Contains(key, "_sync:rb:") || strings.Contains(key, "_sync:att")):
+		// deleteRemovedRevisionBodies / the obsolete-attachment sweep: the delete of an auxiliary document that the
+		// state before the request references.  Best effort (its failure is logged); only allowed after the commit.
+		return "Cleanup"
 	case strings.Contains(key, "_sync:rev:"):
 		return "Opt" // temporary backup of the superseded revision body: best effort by design
 	case strings.Contains(key, "unusedSeq"):
@@ -851,11 +859,13 @@ func (e *c11Env) mark(m string) {
 // succeeded (the compare-and-swap write: the LAST one of a call is the Commit, earlier ones lost their CAS race: Aux)
 // and the end marker.  A write nested in another write's callback on the same key (import before write) is a
 // sub-request of its own; "~sub" markers separate the documents of a bulk write.
-func c11Shape(marked []string) (classes []string, subOf []int, nsub int) {
+func c11Shape(marked []string, bodyReads bool) (classes []string, subOf []int, nsub int) {
 	type open struct {
 		key      string
+		start    int // index of the operation that entered the write
 		attempts []int
 	}
+	var ops []string // the operation at each index
 	var stack []open
 	sub := 0
 	committed := false // a document commit of the current sub-request has happened
@@ -878,6 +888,18 @@ func c11Shape(marked []string) (classes []string, subOf []int, nsub int) {
 			if n := len(top.attempts); n > 0 && strings.HasPrefix(m, "~end ") {
 				classes[top.attempts[n-1]] = "Commit"
 				committed = true
+				if bodyReads {
+					// the callback of the attempt that commits: after the previous (lost) attempt's write, or the entry
+					from := top.start + 1
+					if n > 1 {
+						from = top.attempts[n-2] + 1
+					}
+					for j := from; j < top.attempts[n-1]; j++ {
+						if classes[j] == "Read" && strings.HasPrefix(ops[j], "GetRaw ") && strings.Contains(ops[j], "_sync:rb:") {
+							classes[j] = "ReadBody"
+						}
+					}
+				}
 				if len(stack) > 0 {
 					sub++
 					committed = false
@@ -888,9 +910,10 @@ func c11Shape(marked []string) (classes []string, subOf []int, nsub int) {
 		parts := strings.SplitN(m, " ", 2)
 		idx := len(classes)
 		subOf = append(subOf, sub)
+		ops = append(ops, m)
 		switch parts[0] {
 		case "WriteUpdateWithXattrs":
-			stack = append(stack, open{key: parts[1]})
+			stack = append(stack, open{key: parts[1], start: idx})
 			classes = append(classes, "Aux")
 		case "WriteAttempt":
 			if len(stack) > 0 {
@@ -969,7 +992,7 @@ func TestVerifC11(t *testing.T) {
 	modes := []string{"error", "timeout"}
 	resName := map[bool]string{true: "RErr", false: "ROk"}
 	stName := map[string]string{"unchanged": "SUnchanged", "committed": "SCommitted", "lost": "SLost", "other": "SOther"}
-	kinds := append(c11Requests(), c11RequestsDeep()...)
+	kinds := append(append(c11Requests(), c11RequestsDeep()...), c11RequestsRB()...)
 	rec.Extra("request_kinds", len(kinds))
 	for ri := range kinds {
 		rq := &kinds[ri]
@@ -1010,7 +1033,7 @@ func TestVerifC11(t *testing.T) {
 		setFail(nil)
 		setHook(nil)
 		e.fs.onMark, e.ms.onMark = nil, nil
-		classes, subOf, shapeSubs := c11Shape(marked)
+		classes, subOf, shapeSubs := c11Shape(marked, rq.bodyReads && c11PromotedBodyReadSwallowed)
 		if os.Getenv("C11_DEBUG") != "" {
 			fmt.Printf("== %s clean=%v\n", rq.kind, cleanErrs)
 			for _, m := range marked {
@@ -1049,7 +1072,7 @@ func TestVerifC11(t *testing.T) {
 				rec.Fail("reported_success_durable", "clean-run-not-visible", map[string]any{"kind": rq.kind, "sub_request": i, "detail": detail}, "un-faulted request: an earlier commit is not visible")
 			}
 		}
-		if rq.kind == "doc_rejected" && expectSuccess {
+		if strings.HasSuffix(rq.kind, "_rejected") && expectSuccess {
 			rec.Fail("harness_selfcheck", "trace-shape:"+rq.kind, map[string]any{"kind": rq.kind, "marked": marked}, "a rejected write has a commit operation in its clean trace")
 		}
 		if !multi {
@@ -1085,10 +1108,12 @@ func TestVerifC11(t *testing.T) {
 			rq.setup(e, id)
 			keys := make([][]string, nsub)
 			pre := make([]map[string]string, nsub)
+			preAux := make([]map[string]string, nsub) // the auxiliary documents the stored state of the keys references
 			var allKeys []string
 			for i := 0; i < nsub; i++ {
 				keys[i] = rq.keysOf(e, id, i)
 				pre[i] = e.rawState(keys[i], rq.noCas)
+				preAux[i] = e.auxState(e.auxRefs(keys[i]))
 				allKeys = append(allKeys, keys[i]...)
 			}
 			var targets []*c11Target
@@ -1121,7 +1146,7 @@ func TestVerifC11(t *testing.T) {
 			var firedIdx []string
 			var firedOps []string
 			var firedCls []string
-			anyFired := false
+			anyFired := len(ks) == 0 // the un-faulted run is a case of its own (empty fault set)
 			for i, tg := range targets {
 				if tg.fired {
 					anyFired = true
@@ -1134,14 +1159,19 @@ func TestVerifC11(t *testing.T) {
 			for _, o := range firedOps {
 				sigOps += ":" + c11OpSig(o)
 			}
-			invalFired := false // a principal invalidation after the commit was failed (its failure is swallowed)
+			invalFired := false    // a principal invalidation after the commit was failed (its failure is swallowed)
+			bodyReadFired := false // the read of the body of the revision to promote was failed (its failure is swallowed)
 			for _, c := range firedCls {
 				if c == "Inval" {
 					invalFired = true
 				}
+				if c == "ReadBody" {
+					bodyReadFired = true
+				}
 			}
 			// ---- observation: per sub-request result and state ----
 			unchanged := make([]bool, nsub)
+			auxLost := make([][]string, nsub)
 			visible := make([]bool, nsub)
 			states := make([]string, nsub)
 			results := make([]error, nsub)
@@ -1156,6 +1186,7 @@ func TestVerifC11(t *testing.T) {
 						changedKey = kk
 					}
 				}
+				auxLost[i] = e.auxLost(preAux[i])
 				visible[i], dets[i] = rq.doneOf(e, id, i)
 				if rq.cont {
 					results[i] = errs[i]
@@ -1180,7 +1211,7 @@ func TestVerifC11(t *testing.T) {
 				resS = append(resS, map[bool]string{true: "err", false: "ok"}[results[i] != nil])
 				stS = append(stS, states[i])
 			}
-			in := map[string]any{"kind": rq.kind, "op_index": ks, "op": firedOps, "mode": mode, "result": strings.Join(resS, ","), "state": strings.Join(stS, ","), "error": fmt.Sprint(errs)}
+			in := map[string]any{"kind": rq.kind, "op_index": ks, "op": firedOps, "mode": mode, "result": strings.Join(resS, ","), "state": strings.Join(stS, ","), "error": fmt.Sprint(errs), "aux_documents_lost": auxLost}
 			// ---- monitors ----
 			// the sub-request a reported failure belongs to: itself (bulk), or the first one whose effect is not
 			// visible (a request whose failed sub-request aborts the rest reports one result for all of them)
@@ -1206,10 +1237,20 @@ func TestVerifC11(t *testing.T) {
 					}
 					rec.Fail("fault_leaves_state_unchanged", sg, in, "request failed but primary state changed ("+changedKey+")")
 				}
+				// "a failed request changes no document, auxiliary documents included" (C11_failed_request_deletes_nothing)
+				if failedHere && len(auxLost[i]) > 0 && mode != "timeout" {
+					sg := "aux-deleted-by-failed-request:" + rq.kind + ":" + c11AuxSig(auxLost[i]) + sigOps
+					if multi {
+						sg = fmt.Sprintf("aux-deleted-by-failed-request:%s#%d:%s%s", rq.kind, i, c11AuxSig(auxLost[i]), sigOps)
+					}
+					rec.Fail("failed_request_deletes_nothing", sg, in, fmt.Sprintf("request failed, the stored document is as before, but auxiliary documents it references are gone or altered: %v", auxLost[i]))
+				}
 				if results[i] == nil && hasCommit[i] && !visible[i] {
 					sg := "swallowed-failure:" + rq.kind + sigOps
 					if invalFired && states[i] == "lost" {
 						sg = "swallowed-failure:principal-invalidation-after-commit"
+					} else if bodyReadFired && states[i] == "lost" {
+						sg = "swallowed-failure:promoted-revision-body-unreadable"
 					} else if multi {
 						sg = fmt.Sprintf("swallowed-failure:%s#%d%s", rq.kind, i, sigOps)
 					}
@@ -1221,8 +1262,18 @@ func TestVerifC11(t *testing.T) {
 			}
 			// ---- sequences ----
 			if !multi {
-				if mode != "timeout" && unchanged[0] {
-					c11Account(rec, e, rq.kind, strings.Join(firedOps, "+")+"/"+mode, ks[0], base1, errs[0])
+				releaseFaulted := false // the fault hit the publication of an unused sequence itself
+				for _, o := range firedOps {
+					if strings.Contains(o, "unusedSeq") {
+						releaseFaulted = true
+					}
+				}
+				if mode != "timeout" && unchanged[0] && !releaseFaulted {
+					k0 := -1
+					if len(ks) > 0 {
+						k0 = ks[0]
+					}
+					c11Account(rec, e, rq.kind, strings.Join(firedOps, "+")+"/"+mode, k0, base1, errs[0])
 				} else {
 					e.ms.takeReleased()
 				}
@@ -1257,19 +1308,42 @@ func TestVerifC11(t *testing.T) {
 			// ---- the Coq case ----
 			var coq string
 			if !multi {
-				coq = fmt.Sprintf("CFault %s [%s] %s %s %s %s", segStr[0], strings.Join(firedIdx, "; "), cqBool(mode == "cas"), cqBool(expectSuccess), resName[results[0] != nil], stName[states[0]])
+				coq = fmt.Sprintf("CFault %s [%s] %s %s %s %s %s", segStr[0], strings.Join(firedIdx, "; "), cqBool(mode == "cas"), cqBool(expectSuccess), resName[results[0] != nil], stName[states[0]], cqBool(len(auxLost[0]) > 0))
 			} else {
-				var rs, ss []string
+				var rs, ss, as []string
 				for i := 0; i < nsub; i++ {
 					if rq.cont || i == 0 {
 						rs = append(rs, resName[results[i] != nil])
 					}
 					ss = append(ss, stName[states[i]])
+					as = append(as, cqBool(len(auxLost[i]) > 0))
 				}
-				coq = fmt.Sprintf("CMulti %s [%s] [%s] [%s] [%s]", cqBool(rq.cont), strings.Join(segStr, "; "), strings.Join(firedIdx, "; "), strings.Join(rs, "; "), strings.Join(ss, "; "))
+				coq = fmt.Sprintf("CMulti %s [%s] [%s] [%s] [%s] [%s]", cqBool(rq.cont), strings.Join(segStr, "; "), strings.Join(firedIdx, "; "), strings.Join(rs, "; "), strings.Join(ss, "; "), strings.Join(as, "; "))
 			}
 			rec.Case(stream, rq.kind, coq, in, anyFired)
 			rec.Err(rq.kind + ":" + mode + ":" + strings.Join(resS, ",") + "/" + strings.Join(stS, ","))
+		}
+		// ---- the un-faulted run as a case (empty fault set): result, state and auxiliary documents as the model predicts ----
+		runFaulted(nil, "error", "clean_run")
+		// the hypothesis of the clean-up theorems (cleanup_after_commit), on the observed trace: an auxiliary document is
+		// only deleted after the commit of its sub-request
+		{
+			firstCommit := make([]int, nsub)
+			for i := range firstCommit {
+				firstCommit[i] = -1
+			}
+			for i, c := range classes {
+				if c == "Commit" && firstCommit[subOf[i]] < 0 {
+					firstCommit[subOf[i]] = i
+				}
+			}
+			for i, c := range classes {
+				if c == "Cleanup" && (firstCommit[subOf[i]] < 0 || i < firstCommit[subOf[i]]) {
+					rec.Fail("cleanup_only_after_commit", "cleanup-before-commit:"+rq.kind+":"+c11OpSig(trace[i]), map[string]any{"kind": rq.kind, "op_index": i, "op": trace[i], "trace": trace, "classes": classes},
+						"an auxiliary document is deleted by an operation that is not preceded by the commit of its (sub-)request")
+					break
+				}
+			}
 		}
 		// ---- every single fault ----
 		for k := range trace {
